@@ -107,9 +107,9 @@ CaseResult run_dynamic(const RunCtx &ctx, TapeReader &t, unsigned size_hint) {
     o.max_n = 6000;
     std::vector<K> uni = gen_keys<K>(t, o, meta);
     uni.erase(std::unique(uni.begin(), uni.end()), uni.end());
-    // "deep" class (about 1 history in 250): base 2 or 4 with a tiny buffer and 2^16..2^19 distinct keys inserted one by one, so that
+    // "deep" class (about 1 history in 100): base 2 or 4 with a tiny buffer and 2^16..2^19 distinct keys inserted one by one, so that
     // 14..18 levels are live at once (the k-way merge of the iterator, find() and lower_bound() walk all of them)
-    const bool deep = sizeof(K) >= 4 && size_hint >= 97 && t.chance(1, 8);
+    const bool deep = sizeof(K) >= 4 && size_hint >= 97 && t.chance(1, 4);
     size_t deep_n = 0;
     bool deep_full = false;
     if (deep) {
